@@ -84,6 +84,24 @@ theorem C20_exactly_once_in_order : C20_exactly_once_in_order_statement := by
   have e2 := final_append cfg State.init (pre ++ [.request ch]) post
   rw [hsplit, e1, e2, delivered_append, hreq, List.nil_append, hbal, howed]
 
+/-- The textbook form: if the API stream is already open and nothing is waiting when `ch` subscribes, and the
+receiver has been drained at the end, then what `ch` has received is exactly
+`⟨(ts m, value of ch's metric in m) | m produced by the API after the subscription⟩`. -/
+theorem C20_exactly_once_in_order_drained (cfg : Config) (pre post : List Event) (ch : Chan) (cat : Category)
+    (hcat : cfg.category ch.cid = some cat) (hsup : supported cat ch.metric = true)
+    (hn : ¬ Subscribed (final cfg State.init pre) ch)
+    (hopen : ((final cfg State.init pre).comps ch.cid).hasRecv = true)
+    (hempty : ((final cfg State.init pre).comps ch.cid).queue = [])
+    (hdrained : ((final cfg State.init (pre ++ .request ch :: post)).comps ch.cid).queue = []) :
+    delivered ch (trace cfg State.init (pre ++ .request ch :: post))
+      = (msgsOf ch.cid post).map (sampleOf cfg ch) := by
+  have h := C20_exactly_once_in_order cfg pre post ch cat hcat hsup hn
+  have hopen' : ((final cfg State.init (pre ++ [.request ch])).comps ch.cid).hasRecv = true := by
+    rw [final_append, final_cons, final_nil]
+    exact hasRecv_step cfg hopen _
+  rw [received_eq_msgsOf cfg hopen' post] at h
+  simpa [owed, hempty, hdrained] using h
+
 /-- Hand-over, from any moment on.  Take any reachable moment at which `ch` is registered and the API stream of its
 component is open.  Whatever happens afterwards (`post`: any number of new subscriptions for the same or other
 components, each restarting a streaming task; messages arriving exactly between, before or after the restarts;
@@ -277,6 +295,12 @@ example : cfg.category b.cid = some "METER" ∧ supported "METER" b.metric = tru
 example : delivered a (trace cfg State.init (pre ++ post))
     = [⟨1, some (3/2)⟩, ⟨2, some (5/2)⟩, ⟨3, some (7/2)⟩] := by decide +kernel
 example : delivered b (trace cfg State.init (pre ++ post)) = [⟨2, some 50⟩, ⟨3, some 50⟩] := by decide +kernel
+-- hypotheses of `C20_exactly_once_in_order_drained`: `b` subscribes with the stream open and nothing waiting
+example : ((final cfg State.init (pre ++ [.take 4])).comps 4).hasRecv = true ∧
+    ((final cfg State.init (pre ++ [.take 4])).comps 4).queue = [] ∧
+    ((final cfg State.init ((pre ++ [.take 4]) ++ .request b :: [.message 4 (m 3), .start 4, .take 4])).comps 4).queue = [] ∧
+    delivered b (trace cfg State.init ((pre ++ [.take 4]) ++ .request b :: [.message 4 (m 3), .start 4, .take 4]))
+      = [⟨3, some 50⟩] := by decide +kernel
 example : Event.request a ∈ pre := by simp [pre]
 example : cfg.category 77 = none := by decide +kernel
 example : cfg.category 9 = some "BATTERY" ∧ supported "BATTERY" "ACTIVE_POWER" = false := by decide +kernel
